@@ -230,5 +230,11 @@ func init() {
 			runMix(c, "c18", &k, mc, nil, c18Check)
 			return k%256 != 0 || !c.Expired()
 		})
-	}, Replay: mixReplay(c18Check)})
+		c18Sequences(c)
+	}, Replay: func(v *Violation) string {
+		if v.Generator == "c18seq" {
+			return c18SeqReplay(v)
+		}
+		return mixReplay(c18Check)(v)
+	}})
 }
